@@ -121,7 +121,10 @@ def finalize(prop, tier, seed, rep, rule, level="exploration", assumptions=(), t
     # violations beyond the kept cap are by construction unmatched -> counted as new
     overflow = rep.violation_count - len(rep.violations)
 
-    os.makedirs(os.path.join(VERIF, "evidence"), exist_ok=True)
+    # VERIF_EVIDENCE_DIR: used by the mutant / seeded-change runners, whose runs against a modified
+    # tree must not overwrite the evidence of the real tree
+    evdir = os.environ.get("VERIF_EVIDENCE_DIR") or os.path.join(VERIF, "evidence")
+    os.makedirs(evdir, exist_ok=True)
     os.makedirs(os.path.join(VERIF, "replays"), exist_ok=True)
     lines = []
     for sig, k in known_hit.items():
@@ -172,7 +175,7 @@ def finalize(prop, tier, seed, rep, rule, level="exploration", assumptions=(), t
         "wall_s": round(wall, 2),
         "violations": len(new_violations) + overflow,
     }
-    with open(os.path.join(VERIF, "evidence", prop + ".json"), "w") as f:
+    with open(os.path.join(evdir, prop + ".json"), "w") as f:
         json.dump(ev, f, indent=1, ensure_ascii=True, default=str)
 
     for ln in lines:
